@@ -75,6 +75,14 @@ CHECKS = {
          "Sequences of 2-4 accepted texts with every separator allowed after a terminator: the concatenation must be accepted, return the concatenation of the individual results (all observers, variable names verbatim) and the individual warnings shifted by each part's start position; variable names and ellipses are deliberately reused across parts.",
          "Parts never end in an unterminated comment.",
          "DESIGN.md §5 C19"),
+ "C06": ("exploration", "child-process isolation (ulimit -v, watchdog, progress file) + in-worker assertions on every returned triple + hook-H2 logical step budgets + diagnostic-shape coverage signal",
+         "Systematic hostile inputs (duplicate variables under absurd sizes, every Unicode white-space code point in 12 positions, 150 hostile fragments in 12 structural positions, deep nesting), token soups, valid tagged sequences, mutations of valid texts and random bytes are parsed in worker processes; an escaped panic, a worker abort, a step count above a linear budget, messages returned together with errors, a valid sequence returned incomplete or out of order, or a malformed/out-of-input diagnostic position is a violation; inputs producing a new diagnostic shape seed two further mutation rounds.",
+         "Non-termination is decided on the hooked logical steps (loops that call none of the hooked functions only trip the wall-clock watchdog, which is reported as inconclusive); inputs above 1 MiB only for the nesting probe; time complexity is not judged.",
+         "DESIGN.md §5 C06"),
+ "C17": ("exploration", "Go race detector (-race build) over a multi-goroutine driver with a detector canary, plus per-call comparison with sequential results",
+         "32-64 goroutines hammer a few hot shared objects per round with every observer and producer, both parsers run concurrently on shared inputs; the race log is scanned for reports with a library frame, a deliberately racy canary must be reported (else inconclusive), every concurrent result must equal the sequential one; evidence reports how many calls overlapped on the same object.",
+         "Judges the schedules that happened (about 1.5e5 overlapping calls per quick run), not all interleavings.",
+         "DESIGN.md §5 C17"),
 }
 
 NOT_YET = {}
